@@ -89,6 +89,11 @@ def confirm_and_write(engine_name, prop, seed, candidates, tier):
   Returns (path, violation) or (None, reason)."""
   budget = 60 if tier == 'quick' else 240
   reason = 'no candidate'
+  engine = importlib.import_module('lsim.' + engine_name)
+  if hasattr(engine, 'replay_priority'):
+    # cases that carry their own history (a process-level prelude) reproduce alone; cases that
+    # only failed because of what ran before them in the batch's process do not
+    candidates = sorted(candidates, key=lambda v: engine.replay_priority(v['case']))
   for v in candidates[:4]:
     hs = v['case'].get('hashseed', 0)
     viol = {k: v[k] for k in ('class', 'key', 'message') if k in v}
